@@ -25,7 +25,7 @@ def corpus() -> list[dict]:
 
 def run(tier: str, seed: int, rep: Report, model: Model) -> dict:
     rnd = rng_for("C11", seed)
-    n = depth(tier, 1000, 10000)
+    n = depth(tier, 1000, 40000)
     rep.rule = ("contexts whose parameters / return are mostly tuple hints of length 1-3 with plain positions mixed in; conforming or one "
                 "fault; distinct = distinct case; non-trivial = some tuple hint has an annotated element at index > 0 or has length 1")
     cases = corpus()
